@@ -384,7 +384,12 @@ impl RandGen {
             r -= *wgt;
         }
         match choice {
-            0 => Some(Op::New),
+            0 => {
+                if cb > 0 && self.rng.chance(1, 3) {
+                    self.pending.push_back(Op::Shallow(w.objs.len() as ObjId));
+                }
+                Some(Op::New)
+            }
             1 => {
                 let hs = all_hrefs(w);
                 let hs: Vec<_> = hs.into_iter().filter(|(h, _)| matches!(h, HRef::P(_)) || self.is_reachable_owner(w, &reach, h)).collect();
@@ -934,6 +939,8 @@ pub enum ScriptMode {
     DeadDrop,
     /// destructors create Weak handles from their own stored handles and let them escape (C05)
     WeakEscape,
+    /// a destructor lets one of its stored handles escape; it is cloned after the collection (C16)
+    DeadCloneLate,
 }
 
 fn split_build_and_drops(ops: Vec<Op>) -> (Vec<Op>, Vec<Op>) {
@@ -1010,7 +1017,7 @@ fn stored_targets(ops: &[Op], n_total: usize) -> Vec<Vec<usize>> {
 
 pub fn script_ops(idx: u64, seed: u64, mode: ScriptMode) -> (Vec<Op>, String) {
     let mut rng = Rng::new(crate::rng::mix(seed ^ 0x5C21, idx));
-    let full = matches!(mode, ScriptMode::DeadClone | ScriptMode::DeadDrop) || rng.chance(1, 2) || (mode == ScriptMode::WeakEscape && rng.chance(2, 3));
+    let full = matches!(mode, ScriptMode::DeadClone | ScriptMode::DeadDrop | ScriptMode::DeadCloneLate) || rng.chance(1, 2) || (mode == ScriptMode::WeakEscape && rng.chance(2, 3));
     let (mut build, drops, n, bdesc) = base_shape(&mut rng, idx, seed, full);
     let (mut hslots, mut wslots) = count_slots(&build);
     let mut desc = bdesc;
@@ -1116,6 +1123,19 @@ pub fn script_ops(idx: u64, seed: u64, mode: ScriptMode) -> (Vec<Op>, String) {
             }
             desc = format!("weak-escape {} actions={}", desc, nact);
         }
+        ScriptMode::DeadCloneLate => {
+            let held = stored_targets(&build, n);
+            // a Weak to every object keeps the allocations in existence after the collection
+            for i in 0..n {
+                build.push(Op::Downgrade(HRef::P(i)));
+            }
+            let cands: Vec<usize> = (0..n).filter(|&i| !held[i].is_empty()).collect();
+            if let Some(&a) = rng.pick(&cands) {
+                let k = rng.below(held[a].len());
+                build.push(Op::Script(a as ObjId, When::Pre, Box::new(Op::EscapeOwn(k))));
+                desc = format!("DeadCloneLate: #{} lets stored handle {} (-> #{}) escape {}", a, k, held[a][k], desc);
+            }
+        }
         ScriptMode::DeadClone | ScriptMode::DeadDrop => {
             let held = stored_targets(&build, n);
             // choose an acting object that stores at least one handle
@@ -1131,6 +1151,24 @@ pub fn script_ops(idx: u64, seed: u64, mode: ScriptMode) -> (Vec<Op>, String) {
             }
         }
     }
+    if mode == ScriptMode::Panic {
+        // the operation that gives up a handle is not always a plain drop
+        for d in drops {
+            match (&d, rng.below(8)) {
+                (Op::Drop(slot), 0) | (Op::Drop(slot), 1) if *slot < n => {
+                    build.push(Op::Shallow(*slot as ObjId));
+                    build.push(Op::MakeMut(*slot));
+                    build.push(Op::Drop(*slot));
+                }
+                (Op::Drop(slot), 2) => build.push(Op::DecStrong(*slot)),
+                _ => build.push(d),
+            }
+        }
+        return (build, desc);
+    }
     build.extend(drops);
+    if mode == ScriptMode::DeadCloneLate {
+        build.push(Op::CloneLate(crate::ops::rel(0)));
+    }
     (build, desc)
 }
